@@ -415,7 +415,7 @@ class Engine:
             values = {}
             for name, (kind, t) in self.inputs.items():
                 values[name] = self._value(model, kind, t)
-            return dict(choices=[list(c) for c in self.choices], values=values)
+            return dict(choices=[list(c) for c in self.choices], values=values, mode=self.mode)
         finally:
             self.solver.pop()
 
